@@ -5,7 +5,7 @@ import torch
 import torch.nn as nn
 import torch.nn.functional as Fn
 import torchphysics as tp
-from torchphysics.models.deeponet.branchnets import FCBranchNet
+from torchphysics.models.deeponet.branchnets import FCBranchNet, ConvBranchNet1D
 from torchphysics.models.deeponet.trunknets import FCTrunkNet
 from torchphysics.models.deeponet.deeponet import DeepONet
 from torchphysics.models.deeponet.layers import TrunkLinear
@@ -39,6 +39,10 @@ def items(tier):
     for hid, act, din, dout, npd, copied in itertools.product(range(len(BOUNDS[tier]["hidden"])), ("tanh", "sin", "mixed"), (1, 2), (1, 2), (2, 3), (True, False)):
         out.append({"name": "inner|h%d|%s|din%d|dout%d|npd%d|copied=%s" % (hid, act, din, dout, npd, copied), "kind": "inner",
                     "hid": hid, "act": act, "din": din, "dout": dout, "npd": npd, "copied": copied, "tier": tier})
+    # the convolutional branch net (a length-preserving Conv1d in front of the fully connected layers)
+    for act, din, dout, copied in itertools.product(("tanh", "mixed"), (1, 2), (1, 2), (True, False)):
+        out.append({"name": "inner|conv|h0|%s|din%d|dout%d|npd2|copied=%s" % (act, din, dout, copied), "kind": "inner", "branch": "conv",
+                    "hid": 0, "act": act, "din": din, "dout": dout, "npd": 2, "copied": copied, "tier": tier})
     for hid, act, din, dout in itertools.product(range(len(BOUNDS[tier]["hidden"])), ("tanh", "sin", "mixed"), (1, 2), (1, 2)):
         out.append({"name": "fastpath|h%d|%s|din%d|dout%d" % (hid, act, din, dout), "kind": "fast", "hid": hid, "act": act,
                     "din": din, "dout": dout, "tier": tier, "cost": 3})
@@ -56,14 +60,18 @@ def acts_of(act, hidden):
     return [nn.Tanh() if act == "tanh" else Sin() for _ in hidden]
 
 
-def make_net(hidden, act, din, dout, npd, copied, seed):
+def make_net(hidden, act, din, dout, npd, copied, seed, branch_kind="fc"):
     torch.manual_seed(seed)
     a = acts_of(act, hidden)
     T = Space({"t": 1})
     fs = FunctionSpace(Interval(T, 0, 1), Space({"e": 1}))
     sampler = GridSampler(fs.input_domain, K).make_static()
     trunk = FCTrunkNet(Space({"x": din}), hidden=tuple(hidden), activations=a, trunk_input_copied=copied)
-    branch = FCBranchNet(fs, discretization_sampler=sampler, hidden=tuple(hidden), activations=a)
+    if branch_kind == "conv":
+        conv = nn.Conv1d(1, 1, kernel_size=3, padding=1)
+        branch = ConvBranchNet1D(fs, discretization_sampler=sampler, convolutional_network=conv, hidden=tuple(hidden), activations=a)
+    else:
+        branch = FCBranchNet(fs, discretization_sampler=sampler, hidden=tuple(hidden), activations=a)
     net = DeepONet(trunk, branch, output_space=Space({"u": dout}), output_neurons=npd * dout)
     return net, fs, sampler
 
@@ -108,7 +116,7 @@ def run_item(item):
     if item["kind"] == "inner":
         hidden = BOUNDS[tier]["hidden"][item["hid"]]
         din, dout, npd, copied = item["din"], item["dout"], item["npd"], item["copied"]
-        net, fs, sampler = make_net(hidden, item["act"], din, dout, npd, copied, seed=11 + item["hid"])
+        net, fs, sampler = make_net(hidden, item["act"], din, dout, npd, copied, seed=11 + item["hid"], branch_kind=item.get("branch", "fc"))
         tgrid = sampler.sample_points().as_tensor[:, 0]
         for F in (1, 2, 3):
             ks = list(np.linspace(0, 1, F + 2)[1:-1])
@@ -153,7 +161,12 @@ def run_item(item):
                             viol("C09|error|%s|forward|%s" % (type(e).__name__, form), "%s raised %s: %s" % (cfg, type(e).__name__, str(e)[:120]))
                             continue
                         with torch.no_grad():
-                            B = seq_ref(net.branch.sequential, vals.reshape(F, K), acts_of(item["act"], hidden)).reshape(F, dout, npd)
+                            bin_ = vals.reshape(F, K)
+                            if item.get("branch") == "conv":
+                                # the convolution sees (function, channel, discretisation point); its result is flattened again
+                                cv = net.branch.conv_net
+                                bin_ = Fn.conv1d(vals.permute(0, 2, 1), cv.weight, cv.bias, padding=1).permute(0, 2, 1).reshape(F, K)
+                            B = seq_ref(net.branch.sequential, bin_, acts_of(item["act"], hidden)).reshape(F, dout, npd)
                             Tt = seq_ref(net.trunk.sequential, x0, acts_of(item["act"], hidden)).reshape(J, dout, npd)
                             exp = torch.einsum("icn,jcn->ijc", B, Tt)
                         if tuple(out.shape) != (F, J, dout):
